@@ -5,6 +5,7 @@ eui_iab v ; iab_split e strict ; eui_get dial v idx ; eui_set dial v idx val ;
 eui_derive ver v prefix ; eui_cmp ver1 v1 ver2 v2.
 Dialect token: built-in class name or D,ws,nw,<hex sep>,pad,U|L (user subclass)."""
 from common import Case, value_classes, rand_value, hexs, plist, tf, optint
+import common
 import platform_cases
 import netaddr
 from netaddr import EUI
@@ -356,7 +357,7 @@ def impl(c):
     if a[0] == 'rt':
         _, ver, d, v = a
         dobj = dialect_obj(ver, d)
-        e = EUI(v, version=ver, dialect=dobj)
+        e = common.make_eui(v, ver, dobj)
         s = str(e)
         if EUI(v, version=ver).format(dobj) != s:
             return '?format'
@@ -366,7 +367,7 @@ def impl(c):
         return _try(lambda: EUI(addr, version=version), _vv)
     if a[0] == 'acc':
         _, ver, d, v, sep = a
-        e = EUI(v, version=ver, dialect=dialect_obj(ver, d))
+        e = common.make_eui(v, ver, dialect_obj(ver, d))
 
         def oui():
             try:
@@ -389,13 +390,13 @@ def impl(c):
         return _try(lambda: IAB.split_iab_mac(a[1], strict=a[2]), lambda r: '%d:%d' % r)
     if a[0] == 'get':
         _, ver, d, v, idx = a
-        e = EUI(v, version=ver, dialect=dialect_obj(ver, d))
+        e = common.make_eui(v, ver, dialect_obj(ver, d))
         if isinstance(idx, tuple):
             return _try(lambda: e[slice(*idx)], fwords)
         return _try(lambda: e[idx], lambda x: str(int(x)))
     if a[0] == 'set':
         _, ver, d, v, idx, val = a
-        e = EUI(v, version=ver, dialect=dialect_obj(ver, d))
+        e = common.make_eui(v, ver, dialect_obj(ver, d))
         try:
             e[idx] = val
         except Exception:
@@ -403,14 +404,14 @@ def impl(c):
         return str(int(e)) if e.version == ver else '?version'
     if a[0] == 'derive':
         _, ver, v, pfx, dd = a
-        e = EUI(v, version=ver, dialect=dialect_obj(ver, dd))
+        e = common.make_eui(v, ver, dialect_obj(ver, dd))
         return ' '.join([_try(e.eui64, _vv), _try(e.modified_eui64, _vv),
                          _try(lambda: e.ipv6(pfx), lambda ip: str(int(ip)) if ip.version == 6 else '?v4'),
                          _try(e.ipv6_link_local, lambda ip: str(int(ip)) if ip.version == 6 else '?v4')])
     if a[0] == 'cmp':
         _, ver1, d1, v1, ver2, d2, v2 = a
-        x = EUI(v1, version=ver1, dialect=dialect_obj(ver1, d1))
-        y = EUI(v2, version=ver2, dialect=dialect_obj(ver2, d2))
+        x = common.make_eui(v1, ver1, dialect_obj(ver1, d1))
+        y = common.make_eui(v2, ver2, dialect_obj(ver2, d2))
         return ' '.join([tf(x == y), tf(x != y), tf(x < y), tf(x <= y), tf(x > y), tf(x >= y),
                          tf(hash(x) == hash(y)) if x == y else '-'])
     raise ValueError(a)
